@@ -2,6 +2,7 @@
    Property theorems only; proofs live in Proofs/ObservationProofs.v. *)
 From Verif Require Import Base.Util Model.Outcome Model.Observation Proofs.SortProofs Proofs.ObservationProofs
   Proofs.K08Proofs Gen.Generated.
+From Verif Require Import Base.GenIR Gen.GeneratedTr Proofs.GenTrHooks.
 Open Scope N_scope.
 
 (* Performables: for every store content (any number of staged results, any sizes >= 2 bytes), every
@@ -95,6 +96,77 @@ Theorem C08_gen_limits :
   ObservationConditionalsProposalsLimit = 5%Z /\ ObservationBlockHistoryLimit = 256%Z.
 Proof. repeat split; reflexivity. Qed.
 Print Assumptions C08_gen_limits.
+
+Section GenTie.
+Local Open Scope Z_scope.
+(* ---- Tie to the source by translation (Gen/GeneratedTr.v, regenerated from /repo on every run by gen/translate.go) ----
+   g_* are the decision terms translated from the CURRENT Go code: every condition, the branch structure and which
+   white-listed effect statement runs on which path.  The theorems below state that the model's functions - about
+   which every theorem above speaks - are the interpretation of these terms. *)
+(* AddFromStagingHook.RunHook: view, coordinator filter and base encoding first (an error returns before anything is added), then order, then cut *)
+Theorem C08_gen_staging_hook_steps :
+  forall a b c : bool,
+  g_hook_staging a b c = if a || b || c then ([], RetO 1) else ([1; 2], RetO 0).
+Proof. exact gen_hook_staging. Qed.
+Print Assumptions C08_gen_staging_hook_steps.
+
+(* addByPercentageExceeded, one level of the recursion: the model's trim is the interpretation of the generated term (clamp to the number of results, stop at limit <= 0, lower the limit while the encoding is too long) *)
+Theorem C08_gen_trim_decisions :
+  forall fuel maxlen base l limit cur,
+  let lim := if Z.of_nat (length l) <? limit then Z.of_nat (length l) else limit in
+  let k := Z.to_nat lim in
+  let size := obs_size base l k in
+  let lim' := next_limit size base maxlen lim in
+  trim (S fuel) maxlen base l limit cur =
+  match g_hook_staging_trim limit (Z.of_nat (length l)) size maxlen lim' with
+  | ([], RetO 1) => (cur, false)
+  | ([1], RetO 2) => if maxlen <? size then (k, true) else (k, false)
+  | ([1], RetO 3) => trim fuel maxlen base l lim' k
+  | _ => (cur, true)
+  end.
+Proof. exact gen_hook_staging_trim. Qed.
+Print Assumptions C08_gen_trim_decisions.
+
+(* stagedResultSorter.updateShuffledIDs: the memo is cleared exactly when the random source changed, then filled for the ids it lacks *)
+Theorem C08_gen_memo_decisions :
+  forall same known : bool,
+  g_hook_sorter_memo same = (if same then ([3], RetO 1) else ([1; 2; 3], RetO 1)) /\
+  g_hook_sorter_memo_body known = (if known then ([], Fall) else ([1], Fall)).
+Proof. exact gen_hook_sorter_memo. Qed.
+Print Assumptions C08_gen_memo_decisions.
+
+(* AddLogProposalsHook / AddConditionalProposalsHook: view, coordinator filter, keyed shuffle, cut (only when longer than the limit), append - the same steps for both types *)
+Theorem C08_gen_proposal_hooks_steps :
+  forall (e : bool) n limit,
+  g_hook_log_proposals e n limit = g_hook_cond_proposals e n limit /\
+  g_hook_log_proposals e n limit =
+    if e then ([1; 2], RetO 1) else if limit <? n then ([1; 2; 3; 4; 5], RetO 0) else ([1; 2; 3; 5], RetO 0).
+Proof. exact gen_hook_proposals. Qed.
+Print Assumptions C08_gen_proposal_hooks_steps.
+
+(* the cut keeps the leading limit entries *)
+Theorem C08_gen_proposal_hooks_cut :
+  forall (A : Type) (l : list A) (limit : nat),
+  firstn limit l =
+  match g_hook_log_proposals false (Z.of_nat (length l)) (Z.of_nat limit) with
+  | ([1; 2; 3; 4; 5], RetO 0) => firstn limit l
+  | _ => l
+  end.
+Proof. exact gen_hook_proposals_cut. Qed.
+Print Assumptions C08_gen_proposal_hooks_cut.
+
+(* AddBlockHistoryHook: the model's add_history is the interpretation *)
+Theorem C08_gen_block_history_decisions :
+  forall (A : Type) (view : list A) (limit : nat),
+  add_history limit view =
+  match g_hook_block_history (Z.of_nat (length view)) (Z.of_nat limit) with
+  | ([1; 2; 3], Fall) => firstn limit view
+  | _ => view
+  end.
+Proof. exact gen_hook_block_history. Qed.
+Print Assumptions C08_gen_block_history_decisions.
+
+End GenTie.
 
 Example C08_nonvacuous :
   let staged := [mkSRes 1 30 400; mkSRes 2 10 400; mkSRes 3 20 400; mkSRes 4 5 400]%Z in
